@@ -66,7 +66,7 @@ let handle check diff (toks : string list) (raw : string) : bool =
     let l = log_of lin in
     let prefix = firstn (int_of_string k) (Stdlib.List.rev !l) in
     let d = db_of_log prefix in
-    let r = bootstrap false (z self) (map peer_of gen) (map z ids) d in
+    let r = bootstrap true (z self) (map peer_of gen) (map z ids) d in
     let (hd, sq) = head_seq r.br_st in
     check "CC" raw (Stdlib.String.concat " " obs)
       (Printf.sprintf "%s %s %s" (zs hd) (zs sq) (if r.br_ok then "ok" else "error"));
